@@ -3,6 +3,7 @@ package checks
 import (
 	"encoding/json"
 	"fmt"
+	"os"
 	"sort"
 
 	"verifsim/gen"
@@ -62,6 +63,22 @@ func (c *cfCheck) NewStats() Stats         { return newCFStats() }
 func (c *cfCheck) Init(tier string) {
 	if c.it == nil {
 		c.it = harness.NewInterp()
+	}
+	// two source files for relative imports live in the scratch directory, which becomes the
+	// working directory (many worker processes share it: the files appear atomically)
+	if dir := os.Getenv("VERIF_SCRATCH"); dir != "" && os.Chdir(dir) == nil {
+		for name, text := range map[string]string{
+			"cfbad.pangaea":  "cfBefore := 1\n(cfBefore // 0)\ncfAfter := 2\n",
+			"cfgood.pangaea": "cfVal := 5\n",
+		} {
+			if _, err := os.Stat(name); err != nil {
+				tmp := fmt.Sprintf("%s.%d.tmp", name, os.Getpid())
+				if os.WriteFile(tmp, []byte(text), 0o644) == nil {
+					os.Rename(tmp, name)
+				}
+			}
+		}
+		gen.ImportsAvailable = true
 	}
 	if tier == "thorough" {
 		c.cfg.KindsPerPos = 0
